@@ -105,9 +105,9 @@ func cmdCheck(args []string) int {
 	if s := os.Getenv("VERIF_SEED"); s != "" {
 		fmt.Sscanf(s, "%d", &seed)
 	}
-	timeout := 20
+	timeout := 60
 	if *tier == "thorough" {
-		timeout = 120
+		timeout = 180
 	}
 	cs, err := LoadContracts(*repo, externSpec)
 	if err != nil {
